@@ -1099,6 +1099,154 @@ func mergeStream(c *cli.Ctx, r *emit.Rng, n int) error {
 	return w.Flush()
 }
 
+// ---------- wide label sets ----------
+
+// wideMetric builds a gauge with n label pairs l00..l(n-1) (values v<k>), then
+//   dupI < dupJ >= 0: the name at position dupJ is replaced by the name at position dupI (duplicate label name),
+//   order: 0 sorted, 1 reversed, 2 shuffled, 3 rotated (the duplicate positions refer to the slice as written),
+//   late: another defect placed at index lateAt (>= 0): 1 invalid name, 2 reserved name, 3 non-UTF-8 value.
+func wideMetric(r *emit.Rng, n, dupI, dupJ, order, late, lateAt int, ty int, uid int) *dto.Metric {
+	m := &dto.Metric{}
+	for k := 0; k < n; k++ {
+		m.Label = append(m.Label, lp(fmt.Sprintf("l%02d", k), fmt.Sprintf("v%d", k)))
+	}
+	switch order {
+	case 1:
+		for i, j := 0, n-1; i < j; i, j = i+1, j-1 {
+			m.Label[i], m.Label[j] = m.Label[j], m.Label[i]
+		}
+	case 2:
+		for i := n - 1; i > 0; i-- {
+			j := r.Intn(i + 1)
+			m.Label[i], m.Label[j] = m.Label[j], m.Label[i]
+		}
+	case 3:
+		k := r.Intn(n)
+		m.Label = append(m.Label[k:], m.Label[:k]...)
+	}
+	if dupJ >= 0 {
+		m.Label[dupJ] = lp(m.Label[dupI].GetName(), m.Label[dupJ].GetValue())
+	}
+	if late > 0 && lateAt < n {
+		switch late {
+		case 1:
+			m.Label[lateAt].Name = proto.String("")
+		case 2:
+			m.Label[lateAt].Name = proto.String("__r")
+		case 3:
+			m.Label[lateAt].Value = proto.String("\xff")
+		}
+	}
+	setPayload(m, ty, uid)
+	return m
+}
+
+// wideStream: metrics with up to 16 label pairs; duplicate label names at every pair of positions of 9-, 10-, 12- and
+// 16-label metrics (early/early, early/late, late/late), in sorted, reversed, shuffled and rotated label order, other
+// label defects at late positions, and valid wide metrics; through Registry.Gather (plain/pedantic, checked/unchecked)
+// and every fourth case through Gatherers.Gather.
+func wideStream(c *cli.Ctx, r *emit.Rng) error {
+	w := emit.NewWriter(c.Out, "C09", "wide")
+	var fl failures
+	setScheme(false)
+	type spec struct{ n, i, j, order, late, lateAt int }
+	var specs []spec
+	for _, n := range []int{9, 10, 12, 16} {
+		for i := 0; i < n; i++ {
+			for j := i + 1; j < n; j++ {
+				specs = append(specs, spec{n, i, j, (i + j) % 4, 0, 0})
+			}
+		}
+	}
+	for k := 0; k < 150*c.Scale; k++ {
+		n := 2 + r.Intn(15)
+		sp := spec{n: n, i: -1, j: -1, order: r.Intn(4)}
+		switch r.Intn(4) {
+		case 0: // valid
+		case 1, 2:
+			sp.j = 1 + r.Intn(n-1)
+			sp.i = r.Intn(sp.j)
+		case 3:
+			sp.late, sp.lateAt = 1+r.Intn(3), r.Intn(n)
+			if r.Bool() && n > 8 {
+				sp.lateAt = 8 + r.Intn(n-8)
+			}
+		}
+		specs = append(specs, sp)
+	}
+	for idx, sp := range specs {
+		ty := []int{1, 0, 3, 2, 4}[idx%5]
+		names := make([]string, sp.n)
+		for k := range names {
+			names[k] = fmt.Sprintf("l%02d", k)
+		}
+		tags := []string{fmt.Sprintf("labels:%d", sp.n), fmt.Sprintf("order:%d", sp.order)}
+		if sp.j >= 0 {
+			pos := func(k int) string {
+				if k < 8 {
+					return "early"
+				}
+				return "late"
+			}
+			tags = append(tags, "dup:"+pos(sp.i)+"/"+pos(sp.j))
+		} else if sp.late > 0 {
+			tags = append(tags, fmt.Sprintf("late-defect:%d", sp.late))
+		} else {
+			tags = append(tags, "valid")
+		}
+		if idx%4 == 3 { // through Gatherers with a hand-made family
+			m := wideMetric(r, sp.n, sp.i, sp.j, sp.order, sp.late, sp.lateAt, ty, 1+idx%50)
+			m2 := wideMetric(r, sp.n, -1, -1, 0, 0, 0, ty, 51)
+			mf := &dto.MetricFamily{Name: proto.String("wide"), Help: proto.String("h"), Type: dto.MetricType(ty).Enum(), Metric: []*dto.Metric{m, m2}}
+			answer := emit.Pair(familiesTerm([]*dto.MetricFamily{mf}), kindsTerm(nil))
+			gs := prometheus.Gatherers{prometheus.GathererFunc(func() ([]*dto.MetricFamily, error) { return []*dto.MetricFamily{mf}, nil })}
+			out, pan := gatherWithWatchdog(gs)
+			if pan != "" {
+				fl.add(idx, "Gatherers.Gather panicked: "+pan)
+			}
+			if rt := roundTrip(out.mfs); rt != "" {
+				fl.add(idx, rt)
+			}
+			w.Add(emit.Tup("1", "0", emit.L([]string{answer}), familiesTerm(out.mfs), kindsTerm(out.kinds)), true, append(tags, "via:gatherers")...)
+			continue
+		}
+		pedantic := idx%2 == 0
+		checked := idx%3 != 0
+		reg := prometheus.NewRegistry()
+		if pedantic {
+			reg = prometheus.NewPedanticRegistry()
+		}
+		rc := newRecorder()
+		d := prometheus.NewDesc("wide", "h", names, nil)
+		col := &advCollector{}
+		if checked {
+			col.describe = []*prometheus.Desc{d}
+		}
+		x := rc.newRec(checked)
+		col.metrics = append(col.metrics, &advMetric{r: rc, x: x, d: d, content: wideMetric(r, sp.n, sp.i, sp.j, sp.order, sp.late, sp.lateAt, ty, x.uid)})
+		if idx%2 == 1 { // a second, valid metric with other values
+			y := rc.newRec(checked)
+			m2 := wideMetric(r, sp.n, -1, -1, 0, 0, 0, ty, y.uid)
+			m2.Label[sp.n-1].Value = proto.String("other")
+			col.metrics = append(col.metrics, &advMetric{r: rc, x: y, d: d, content: m2})
+		}
+		reg.MustRegister(col)
+		out, pan := gatherWithWatchdog(reg)
+		if pan != "" {
+			fl.add(idx, "Gather panicked: "+pan)
+		}
+		if rt := roundTrip(out.mfs); rt != "" {
+			fl.add(idx, rt)
+		}
+		arr, _ := arrivalsTerm(rc)
+		w.Add(emit.Tup("0", "0", emit.B(pedantic), idsTerm(reg), arr, familiesTerm(out.mfs), kindsTerm(out.kinds)), true, append(tags, "via:registry")...)
+	}
+	if len(fl.list) > 0 {
+		w.Extra["direct_failures"] = fl.list
+	}
+	return w.Flush()
+}
+
 // ---------- known findings (known_findings.txt) ----------
 
 // gatherOrdered gathers the metrics from ONE unchecked collector, i.e. in exactly the given order.
@@ -1215,6 +1363,9 @@ func runC09(c *cli.Ctx) error {
 		return err
 	}
 	if err := mergeStream(c, r.Fork(), 400*c.Scale); err != nil {
+		return err
+	}
+	if err := wideStream(c, r.Fork()); err != nil {
 		return err
 	}
 	if err := knownMultiPayload(c, r.Fork()); err != nil {
